@@ -101,10 +101,12 @@ def facts_path(cfg):
 
 def prune_cache(keep, max_entries=6):
     try:
+        now = time.time()
         ents = [(os.path.getmtime(os.path.join(CACHE, e)), e) for e in os.listdir(CACHE) if e != keep]
         ents.sort(reverse=True)
-        for _, e in ents[max_entries:]:
-            shutil.rmtree(os.path.join(CACHE, e), ignore_errors=True)
+        for mt, e in ents[max_entries:]:
+            if now - mt > 900:      # never remove an entry another concurrent check may be reading
+                shutil.rmtree(os.path.join(CACHE, e), ignore_errors=True)
     except OSError:
         pass
 
